@@ -65,6 +65,12 @@ pub fn whoami() -> i64 {
 }
 
 fn do_emit(site: i64, kind: u8, val: u64) {
+    if kind >= 2 {
+        // the less common macro forms (no `target:`); the generator gives them a site of target 0
+        let level = sites::SITES[site as usize].0;
+        sites::emit_event_form(kind as usize - 2, level, val);
+        return;
+    }
     if kind == 1 {
         let s = sites::make_span(site as usize, val);
         drop(s);
@@ -438,7 +444,13 @@ impl Engine for CoreEngine {
                 let k = *rng.pick(&created);
                 // schedules: a small shared pool of sites so that first hits collide
                 let site = if sync { (site_base + rng.below(2)) % sites::N as u64 } else { rng.below(sites::N as u64) };
-                let kind = rng.below(2);
+                let mut kind = rng.below(2);
+                let mut site = site;
+                if rng.chance(1, 6) {
+                    // a less common form of the event macro; those sites are the target-0 column of the pool
+                    kind = 2 + rng.below(4);
+                    site = (site / 4) * 4;
+                }
                 let st = match roll {
                     12..=19 => {
                         if open_depth[tt] < 4 {
